@@ -753,6 +753,16 @@ def run(ctx):
     from .c14 import final_file_records_complete
 
     final_file_records_complete(ctx, 'C01.R4')
+    # which version of a path is restored is decided by comparing the stored timestamps (one clock, UTC); the recorded
+    # modification time is restored from the nanosecond fields, the legacy fields only when those are ABSENT; the chunker
+    # carries nothing from one stream to the next
+    from ..report import Relabel as _RL1
+    from .c10 import r3_stateless as _st
+    from .c14 import r4_legacy as _lg, r8_utc_timestamp as _utc
+
+    _utc(_RL1(ctx, 'C01.R8'))
+    _lg(_RL1(ctx, 'C01.R8'))
+    _st(_RL1(ctx, 'C01.R2'))
     r11_serialization(ctx)
     r1b_traversal_complete(ctx)
     r3b_chunk_record_fresh(ctx)
